@@ -5,7 +5,7 @@ pub fn primitive_root(prime: u64) -> Option<u64> {
         .iter()
         .map(|factor| (prime - 1) / factor)
         .collect();
-    'next: for potential_root in 2..prime {
+    'next: for potential_root in 1..prime {
         // for each distinct factor, if potential_root^(p-1)/factor mod p is 1, reject it
         for exp in &test_exponents {
             if modular_exponent(potential_root, *exp, prime) == 1 {
